@@ -173,10 +173,16 @@ def searchPred (m : List Bytes) (target : Bytes) (i : Nat) : Bool :=
 def fastHit (m : List Bytes) (target : Bytes) : Bool :=
   m[sortSearch m.length (searchPred m target)]? == some target
 
+/-- one label: `*` stands for exactly one NON-EMPTY label (as in TLS server name matching, since
+    the `fix:` commit "a wildcard label of the host matcher no longer matches an empty label");
+    any other pattern label is compared case-insensitively -/
+def labelMatch (p h : Bytes) : Bool :=
+  if p == [cStar] then !h.isEmpty else equalFold p h
+
 /-- label-wise comparison of a wildcard entry -/
 def labelsMatch : List Bytes → List Bytes → Bool
   | [], [] => true
-  | p :: ps, h :: hs => (p == [cStar] || equalFold p h) && labelsMatch ps hs
+  | p :: ps, h :: hs => labelMatch p h && labelsMatch ps hs
   | _, _ => false
 
 /-- one iteration of the `outer:` loop body (after the replacer, which is the identity) -/
